@@ -61,6 +61,9 @@ impl Config {
         }
 
         let n_layers: usize = self.n_layers.to_bigint().try_into()?;
+        if self.fri_step_sizes.len() != n_layers || self.inner_layers.len() != n_layers - 1 {
+            return Err(Error::InvalidLength);
+        }
         let mut sum_of_step_sizes = Felt::ZERO;
         let mut log_input_size = self.log_input_size;
 
@@ -108,6 +111,8 @@ pub enum Error {
     OutOfBounds { min: u64, max: u64 },
     #[error("invalid first fri step")]
     FirstFriStepInvalid,
+    #[error("fri_step_sizes / inner_layers length does not match n_layers")]
+    InvalidLength,
     #[error("invalid value for column count, expected {expected}, got {actual}")]
     InvalidColumnCount { expected: Felt, actual: Felt },
     #[error("log input size mismatch, expected {expected}, got {actual}")]
@@ -128,6 +133,8 @@ pub enum Error {
     OutOfBounds { min: u64, max: u64 },
     #[error("invalid first fri step")]
     FirstFriStepInvalid,
+    #[error("fri_step_sizes / inner_layers length does not match n_layers")]
+    InvalidLength,
     #[error("invalid value for column count, expected {expected}, got {actual}")]
     InvalidColumnCount { expected: Felt, actual: Felt },
     #[error("log input size mismatch, expected {expected}, got {actual}")]
